@@ -63,6 +63,7 @@ type Obs struct {
 	HookLate           int // entries whose phase did not occur (executed after the op)
 	HookCommits        int // entries that committed an application transaction inside the hook
 	HookLockHeld       int // entries that left an application write transaction open when the hook returned
+	BGSpawned          int // litestream calls started on their own goroutine from inside a hook
 	lastSalt           [2]uint32
 }
 
@@ -100,6 +101,7 @@ type World struct {
 
 	// interleaving state (interleave.go)
 	pend          []*pendingAt
+	bg            []chan struct{}
 	phaseCount    map[string]int
 	inHook        bool
 	OpCommits     int            // application commits executed inside hooks of the current / last litestream op
@@ -1075,6 +1077,35 @@ func (w *World) ReopenApp() error {
 	}
 	if w.ledgerDB == nil {
 		if err := w.openLedger(); err != nil {
+			return err
+		}
+	}
+	return nil
+}
+
+// ColdRestart models a stop of everything: litestream is closed (if attached), then every application connection
+// (the last one to close makes SQLite checkpoint and delete the WAL). With lsFirst, litestream is started again and
+// syncs before the application opens its first connection. The caller resets its generator model (only connection 0
+// is open afterwards).
+func (w *World) ColdRestart(withLS, lsFirst bool) error {
+	if withLS && w.DB != nil {
+		_ = w.Detach()
+	}
+	w.CloseAllApp()
+	if withLS && lsFirst {
+		if err := w.reopenFD(); err != nil {
+			return err
+		}
+		if err := w.Attach(); err != nil {
+			return err
+		}
+		w.LSStep(Op{K: "sync"})
+	}
+	if err := w.ReopenApp(); err != nil {
+		return err
+	}
+	if withLS && !lsFirst {
+		if err := w.Attach(); err != nil {
 			return err
 		}
 	}
